@@ -91,10 +91,18 @@ def build_impl():
     dst = SCRATCH_ROOT / ('impl-%s-%s' % (tag, key))
     with locked('impl-' + tag):
         if (dst / '.built').exists():
+            os.utime(dst / '.built')
             return dst
-        for old in SCRATCH_ROOT.glob('impl-%s-*' % tag):
-            # other keys of the same source tree are stale: the tree changed
-            shutil.rmtree(old, ignore_errors=True)
+        for old in SCRATCH_ROOT.glob('impl-*'):
+            # builds of other states of a source tree are stale once nobody has used them for a while
+            # (a long run may still be using one when the tree changes under it)
+            stamp = old / '.built'
+            try:
+                age = time.time() - stamp.stat().st_mtime
+            except OSError:
+                age = time.time() - old.stat().st_mtime
+            if age > 3 * 3600 or (old.name.startswith('impl-%s-' % tag) and age > 1800):
+                shutil.rmtree(old, ignore_errors=True)
         dst.mkdir(parents=True)
         for f in _repo_files():
             if f.startswith(('docs/', 'dev/', '.github/')):
